@@ -1765,7 +1765,7 @@ class C04(Prop):
                 if got in (None, "NA"):
                     continue
                 # correspondence: the Lean model of src/serde/de.rs (Impl/De.lean) against the implementation
-                if mdl not in (None, "FUEL") and got != "PANIC" and got != mdl:
+                if mdl not in (None, "FUEL", "NOTMODELLED") and got != "PANIC" and got != mdl:
                     res.model_disagreements.append(dict(key=f"c04:deserializer-model-vs-{fld}:type-{tid}", case=case, detail=f"impl {got[:120]} model {mdl[:120]}"))
                 if got == "PANIC":
                     res.oracle_failures.append(dict(key=f"C04|type-{tid}|panic", case=case, detail="the library panicked"))
